@@ -3206,8 +3206,7 @@ evhttp_send_error(struct evhttp_request *req, int error, const char *reason)
 
 	/* Output error using callback for connection's evhttp, if available */
 	if ((http->errorcb == NULL) ||
-	    ((*http->errorcb)(req, buf, error, reason, http->errorcbarg) < 0) ||
-	    evbuffer_get_length(buf) == 0)
+	    ((*http->errorcb)(req, buf, error, reason, http->errorcbarg) < 0))
 	{
 		const char *heading = evhttp_response_phrase_internal(error);
 
